@@ -340,12 +340,166 @@ static int run_symcache(uint64_t seed, int rounds, int n) {
     return 0;
 }
 
+/* ------------------------------------------------------------------------------------------------------------------
+ * struct layout scenario: the same key/value set inserted in MANY orders must give identical slot arrays.
+ * Key sets are drawn from a candidate pool using the real janet_hash so that they share a home bucket or adjacent
+ * buckets modulo the capacity the struct will get (probe clusters with displacement), or are plain small integers. */
+typedef struct { Janet k; int32_t h; } Cand;
+static Cand *cands; static int ncand;
+
+static void add_cand(Janet k) {
+    cands[ncand].k = k; cands[ncand].h = janet_hash(k); ncand++;
+    if (!janet_checktype(k, JANET_NUMBER)) janet_gcroot(k);
+}
+
+static const JanetKV *build_order(const Janet *keys, const Janet *vals, const int *ord, int n) {
+    JanetKV *st = janet_struct_begin(n);
+    for (int i = 0; i < n; i++) janet_struct_put(st, keys[ord[i]], vals[ord[i]]);
+    return janet_struct_end(st);
+}
+
+static int same_slots(const JanetKV *a, const JanetKV *b) {
+    if (janet_struct_capacity(a) != janet_struct_capacity(b) || janet_struct_length(a) != janet_struct_length(b)) return 0;
+    for (int32_t i = 0; i < janet_struct_capacity(a); i++)
+        if (bits_of(a[i].key) != bits_of(b[i].key) || bits_of(a[i].value) != bits_of(b[i].value)) return 0;
+    return 1;
+}
+
+static const char *LAYOUT_PRELUDE =
+    "(defn c03-ways [ks vs]\n"          /* the same insertion order through the language-level constructors */
+    "  (def args @[]) (def t @{})\n"
+    "  (for i 0 (length ks) (array/push args (ks i) (vs i)) (put t (ks i) (vs i)))\n"
+    "  (def s (struct ;args))\n"
+    "  [s (table/to-struct t) (freeze t) (unmarshal (marshal s)) (parse (string/format \"%j\" s)) (struct ;(kvs s))\n"
+    "   (table/to-struct (merge @{} s))])\n";
+
+static int run_layout(uint64_t seed, int nsets, int maxperm, int nmodel) {
+    sm_state = seed;
+    JanetTable *env = g_env = janet_core_env(NULL);
+    janet_gcroot(janet_wrap_table(env));
+    Janet out;
+    if (janet_dostring(env, LAYOUT_PRELUDE, "layout-prelude", &out)) { printf("error layout-prelude\n"); return 2; }
+    Janet ways = janet_wrap_nil();
+    janet_resolve(env, janet_csymbol("c03-ways"), &ways);
+    if (!janet_checktype(ways, JANET_FUNCTION)) { printf("error no-c03-ways\n"); return 2; }
+    cands = malloc(sizeof(Cand) * 4096); ncand = 0;
+    for (int i = -60; i <= 600; i++) add_cand(janet_wrap_number(i));
+    for (int i = 0; i < 120; i++) add_cand(janet_wrap_number(i + 0.5));
+    for (int i = 0; i < 300; i++) { char b[16]; snprintf(b, sizeof b, "k%d", i); add_cand(janet_cstringv(b)); add_cand(janet_ckeywordv(b)); }
+    for (int i = 0; i < 26; i++) for (int j = 0; j < 8; j++) { char b[4] = { (char)('a' + i), (char)('a' + j), 0, 0 }; add_cand(janet_ckeywordv(b)); add_cand(janet_csymbolv(b)); }
+    long builds = 0, langbuilds = 0, fails = 0, maxcluster = 0, engineered = 0;
+    long sizehist[16] = {0};
+    for (int s = 0; s < nsets; s++) {
+        int n = 5 + (int)(sm_next() % 5);            /* 5..9 keys */
+        if (sm_next() % 8 == 0) n = 3 + (int)(sm_next() % 2);
+        int32_t cap = janet_tablen(2 * n);
+        Janet keys[16], vals[16]; int idx[16];
+        int mode = (int)(sm_next() % 4);             /* 0: plain small ints; 1..3: engineered window of width mode */
+        int got = 0;
+        if (mode == 0) {
+            int span = 40 + (int)(sm_next() % 80), base = (int)(sm_next() % 200);
+            while (got < n) {
+                int c = 60 + base + (int)(sm_next() % span);   /* index of the integer (base + …) in cands */
+                int dup = 0; for (int q = 0; q < got; q++) if (idx[q] == c) dup = 1;
+                if (!dup) idx[got++] = c;
+            }
+        } else {
+            engineered++;
+            uint32_t b = (uint32_t)(sm_next() % (uint64_t) cap);
+            int tries = 0;
+            while (got < n && tries < 200000) {
+                int c = (int)(sm_next() % (uint64_t) ncand); tries++;
+                uint32_t home = (uint32_t) cands[c].h & (uint32_t)(cap - 1);
+                uint32_t off = (home + cap - b) & (uint32_t)(cap - 1);
+                if (off >= (uint32_t) mode && tries < 150000) continue;
+                int dup = 0; for (int q = 0; q < got; q++) if (idx[q] == c) dup = 1;
+                if (!dup) idx[got++] = c;
+            }
+        }
+        sizehist[n]++;
+        for (int i = 0; i < n; i++) { keys[i] = cands[idx[i]].k; vals[i] = janet_wrap_number(i + 1); }
+        int ord[16]; for (int i = 0; i < n; i++) ord[i] = i;
+        const JanetKV *ref = build_order(keys, vals, ord, n);
+        janet_gcroot(janet_wrap_struct(ref));
+        /* longest run of occupied slots (cluster size), for the coverage report */
+        { int32_t run = 0, best = 0; for (int32_t i = 0; i < 2 * cap; i++) { if (!janet_checktype(ref[i & (cap - 1)].key, JANET_NIL)) { run++; if (run > best) best = run; } else run = 0; }
+          if (best > cap) best = cap; if (best > maxcluster) maxcluster = best; }
+        if (s < nmodel) {
+            printf("lset %d\n", n);
+            for (int i = 0; i < n; i++) { fputs("lkey ", stdout); ser(keys[i], 0); putchar('\n'); }
+            fputs("lref ", stdout); ser(janet_wrap_struct(ref), 0); putchar('\n');
+        }
+        int allperms = n <= 6;
+        long nperm = allperms ? 1 : maxperm;
+        if (allperms) for (int i = 2; i <= n; i++) nperm *= i;
+        int failed_here = 0;
+        int c[16] = {0}; int hi = 1;                  /* Heap's algorithm state */
+        for (long pi = 0; pi < nperm && !failed_here; pi++) {
+            if (pi > 0) {
+                if (allperms) {
+                    while (hi < n && c[hi] >= hi) { c[hi] = 0; hi++; }
+                    if (hi >= n) break;
+                    int a = (hi & 1) ? c[hi] : 0, t = ord[a]; ord[a] = ord[hi]; ord[hi] = t;
+                    c[hi]++; hi = 1;
+                } else {
+                    for (int i = n - 1; i > 0; i--) { int j = (int)(sm_next() % (uint64_t)(i + 1)), t = ord[i]; ord[i] = ord[j]; ord[j] = t; }
+                }
+            }
+            const JanetKV *st = build_order(keys, vals, ord, n);
+            builds++;
+            int bad = !same_slots(ref, st) || janet_struct_hash(ref) != janet_struct_hash(st) ||
+                      !janet_equals(janet_wrap_struct(ref), janet_wrap_struct(st)) || janet_compare(janet_wrap_struct(ref), janet_wrap_struct(st)) != 0 ||
+                      janet_compare(janet_wrap_struct(st), janet_wrap_struct(ref)) != 0;
+            const char *via = "janet_struct_put";
+            if (!bad && (pi % 97 == 0 || pi == nperm - 1)) {
+                /* the same order through struct / table/to-struct / freeze / unmarshal / parse / splice / merge */
+                Janet ko[16], vo[16];
+                for (int i = 0; i < n; i++) { ko[i] = keys[ord[i]]; vo[i] = vals[ord[i]]; }
+                Janet args[2] = { janet_wrap_tuple(janet_tuple_n(ko, n)), janet_wrap_tuple(janet_tuple_n(vo, n)) };
+                Janet r; JanetFiber *fib = NULL;
+                if (janet_pcall(janet_unwrap_function(ways), 2, args, &r, &fib) != JANET_SIGNAL_OK || !janet_checktype(r, JANET_TUPLE)) {
+                    law("layout-constructors-error", s, pi, -1, ""); bad = 0;
+                } else {
+                    static const char *names[] = {"struct", "table/to-struct", "freeze", "unmarshal", "parse", "struct-splice-kvs", "merge/to-struct"};
+                    const Janet *rt = janet_unwrap_tuple(r);
+                    for (int32_t w = 0; w < janet_tuple_length(rt) && !bad; w++) {
+                        langbuilds++;
+                        if (!janet_checktype(rt[w], JANET_STRUCT)) { bad = 1; via = names[w]; break; }
+                        const JanetKV *s2 = janet_unwrap_struct(rt[w]);
+                        /* parse / unmarshal make new strings: compare with janet_equals on slots instead of bits for those */
+                        int same = janet_struct_capacity(s2) == cap && janet_struct_hash(s2) == janet_struct_hash(ref);
+                        for (int32_t i = 0; same && i < cap; i++)
+                            same = janet_equals(s2[i].key, ref[i].key) && janet_equals(s2[i].value, ref[i].value);
+                        if (!same || !janet_equals(rt[w], janet_wrap_struct(ref)) || janet_compare(rt[w], janet_wrap_struct(ref)) != 0) { bad = 1; via = names[w]; }
+                    }
+                }
+            }
+            if (bad) {
+                fails++; failed_here = 1;
+                if (fails <= 3) {
+                    law("layout-order-dependent", s, pi, n, via);
+                    printf("lfail %d %s\n", n, via);
+                    for (int i = 0; i < n; i++) { fputs("lfkey ", stdout); ser(keys[i], 0); putchar('\n'); }
+                    fputs("lforder", stdout); for (int i = 0; i < n; i++) printf(" %d", ord[i]); putchar('\n');
+                } else nviol++;
+            }
+        }
+        janet_gcunroot(janet_wrap_struct(ref));
+        if ((s & 15) == 15) collect();
+    }
+    printf("summary layout sets %d engineered %ld builds %ld language_level_builds %ld max_cluster %ld failing_sets %ld violations %ld sizes", nsets, engineered, builds, langbuilds, maxcluster, fails, nviol);
+    for (int i = 3; i <= 9; i++) printf(" %d:%ld", i, sizehist[i]);
+    putchar('\n');
+    return 0;
+}
+
 int main(int argc, char **argv) {
     janet_init();
     int rc;
     if (argc >= 3 && !strcmp(argv[1], "pool")) rc = run_pool(argv[2]);
     else if (argc >= 5 && !strcmp(argv[1], "symcache")) rc = run_symcache(strtoull(argv[2], NULL, 10), atoi(argv[3]), atoi(argv[4]));
-    else { printf("usage: pool <script> | symcache <seed> <rounds> <n>\n"); rc = 2; }
+    else if (argc >= 6 && !strcmp(argv[1], "layout")) rc = run_layout(strtoull(argv[2], NULL, 10), atoi(argv[3]), atoi(argv[4]), atoi(argv[5]));
+    else { printf("usage: pool <script> | symcache <seed> <rounds> <n> | layout <seed> <sets> <maxperm> <nmodel>\n"); rc = 2; }
     fflush(stdout);
     return rc;
 }
